@@ -2,7 +2,7 @@
    Theorems about the scope machinery and the loop-range function of the visitor model; the
    model is tied to /repo by the correspondence run of ./check C08. *)
 From Coq Require Import ZArith List Bool String.
-From Verif Require Import BGate PyVal Ast State Unroll ResolveProofs ScopeProofs.
+From Verif Require Import BGate PyVal Ast State Unroll ResolveProofs ScopeProofs StackProofs.
 Import ListNotations.
 Open Scope Z_scope.
 
@@ -65,3 +65,27 @@ Theorem C08_block_in_body_reads_as_body s x :
   get_visible (push_scope (push_ctx CBlock s)) x = get_visible s x.
 Proof. exact (block_in_function_reads_as_body s x). Qed.
 Print Assumptions C08_block_in_body_reads_as_body.
+
+(* every visit -- of any statement, with any fuel, from any state, in validate or unroll mode, with or without
+   external gates -- returns with exactly the scope and context stacks it started with: blocks, loop
+   iterations, switch arms, gate bodies and subroutine calls push and pop in pairs, so a declaration made
+   inside them (C08_declaration_dies_with_block) is gone and the enclosing scopes are in place afterwards.
+   Proved by induction over the whole visitor model (every function of Unroll.v, the evaluator, the fuel knot). *)
+Theorem C08_every_visit_restores_the_stacks check_only externals fuel :
+  (forall st s out s', visit_stmt check_only externals fuel st s = Ok (out, s') ->
+     List.length (scopes s') = List.length (scopes s) /\ ctxs s' = ctxs s) /\
+  (forall f args s r s', visit_call check_only externals fuel f args s = Ok (r, s') ->
+     List.length (scopes s') = List.length (scopes s) /\ ctxs s' = ctxs s).
+Proof.
+  destruct (visit_restores_stacks check_only externals fuel) as [Hs Hc].
+  split; [intros st s out s' E; specialize (Hs st s out s' E)|intros f args s r s' E; specialize (Hc f args s r s' E)].
+  all: unfold sg in *; match goal with H : (_, _) = (_, _) |- _ => inversion H end; auto.
+Qed.
+Print Assumptions C08_every_visit_restores_the_stacks.
+
+Theorem C08_program_ends_at_global_scope qasm2 check_only externals fuel prog o :
+  run_visit qasm2 check_only externals fuel prog = Ok o ->
+  List.length (scopes (o_state o)) = 1%nat /\ ctxs (o_state o) = [CGlobal].
+Proof. exact (run_visit_restores_stacks qasm2 check_only externals fuel prog o). Qed.
+Print Assumptions C08_program_ends_at_global_scope.
+
